@@ -213,18 +213,23 @@ def decode_module(sel, cur, mod: str = "m", swap: bool = False) -> Built:
             cq, cid = f"{MQ}.{nm}", f"{MID}/{nm}"
             nmem = rd(sel, cur, (MAX_MEMBERS if ntop == 1 else 1) + 1)
             # superclass list (quick: only for classes with an empty body: none / (ValueError, Base0) / (Base0, ValueError); thorough: all five lists for every class of a one-definition module)
-            sup = [(), ("ValueError", "Base0"), ("Base0", "ValueError"), ("ValueError",), ("Base0",)][rd(sel, cur, 5 if THOROUGH and ntop == 1 else (3 if nmem == 0 else 1))]
+            sup = [(), ("ValueError", "Base0"), ("Base0", "ValueError"), ("dict[str, int]",), ("ValueError",), ("Base0",)][
+                rd(sel, cur, 6 if THOROUGH and ntop == 1 else (4 if nmem == 0 else 1))]
             bases = []
             for sname in sup:
-                if sname == "ValueError":
+                if sname == "dict[str, int]":  # a superclass written with type arguments: an IndexExpr, not a name
+                    b.features.add("subscripted-base")
+                    bases.append(shim.index_expr(shim.base_expr("builtins.dict", info_bases=[shim.instance("builtins.object")]),
+                                                 shim.tuple_expr([shim.name_expr("str", "builtins.str"), shim.name_expr("int", "builtins.int")])))
+                elif sname == "ValueError":
                     exc = shim.instance("builtins.Exception", bases=[shim.instance("builtins.BaseException", bases=[shim.instance("builtins.object")])])
                     bases.append(shim.base_expr("builtins.ValueError", info_bases=[exc]))
                 else:
                     b.features.add("base-class")
                     bases.append(shim.base_expr(f"{MQ}.Base0", info_bases=[shim.instance("builtins.object")]))
-            sup_q = [("builtins.ValueError" if x == "ValueError" else f"{MQ}.Base0") for x in sup]
+            sup_q = [("builtins.ValueError" if x == "ValueError" else "builtins.dict" if x == "dict[str, int]" else f"{MQ}.Base0") for x in sup]
             b.expect.append({"kind": "class", "id": cid, "owner": MID, "name": nm, "superclasses": sup_q,
-                             "exception": "ValueError" in sup})
+                             "exception": "ValueError" in sup, **({"construct": "superclass-with-type-arguments"} if "dict[str, int]" in sup else {})})
             body, blines, defined = [], [], []
             for j in range(nmem):
                 mk = rd(sel, cur, N_MEMBER)
